@@ -99,6 +99,51 @@ impl<F: Fn(bool) -> CaseResult + Send + Sync> Case for FnCase<F> {
     }
 }
 
+/// Child side of `explore_in_children`: run the shard's cases sequentially, announcing each one
+pub fn run_child_shard(cases: Vec<Box<dyn Case>>, shard: usize, shards: usize, filter: Option<String>, family: &str) {
+    use std::io::Write;
+    let out = std::io::stdout();
+    for (i, c) in cases.iter().enumerate() {
+        if i % shards != shard {
+            continue;
+        }
+        if let Some(f) = &filter {
+            let full = format!("{}/{}", family, c.key());
+            if !(full == *f || f.starts_with(&format!("{}#", full))) {
+                continue;
+            }
+        }
+        {
+            let mut o = out.lock();
+            let _ = writeln!(o, "START {}", c.key());
+            let _ = o.flush();
+        }
+        let r = match std::panic::catch_unwind(std::panic::AssertUnwindSafe(|| c.run(filter.is_some()))) {
+            Ok(r) => r,
+            Err(_) => {
+                let mut r = CaseResult::new("HARNESS-PANIC");
+                r.machinery_error(format!("harness panicked outside the subject on case {}", c.key()));
+                r
+            },
+        };
+        let v = json!({
+            "key": c.key(),
+            "outcome": r.outcome,
+            "executions": r.executions,
+            "transitions": r.transitions,
+            "validated": r.validated,
+            "extra_states": r.extra_states,
+            "violations": r.violations.iter().map(|(a, b)| json!([a, b])).collect::<Vec<_>>(),
+            "machinery": r.machinery,
+            "counters": r.counters,
+            "sample": r.sample,
+        });
+        let mut o = out.lock();
+        let _ = writeln!(o, "END {}", serde_json::to_string(&v).unwrap());
+        let _ = o.flush();
+    }
+}
+
 pub fn case<F: Fn(bool) -> CaseResult + Send + Sync + 'static>(key: impl Into<String>, f: F) -> Box<dyn Case> {
     Box::new(FnCase { key: key.into(), f })
 }
@@ -334,6 +379,118 @@ impl Report {
                     e.1 += 1;
                 } else {
                     self.violations.push((full, what));
+                }
+            }
+        }
+    }
+
+    /// Explore a family of cases in isolated child processes (hostile-input sweeps: an abort or runaway allocation in
+    /// the subject must not take the explorer down). The child rebuilds the same deterministic case list from
+    /// `builder` and runs the shard it is given; every case is announced before it starts, so a child that dies names
+    /// the culprit.
+    pub fn explore_in_children(&mut self, family: &str, builder: &str, n_cases: usize, keys: Vec<String>) {
+        let shards = std::thread::available_parallelism().map(|x| x.get()).unwrap_or(8).min(n_cases.max(1));
+        let exe = std::env::current_exe().expect("own path");
+        let tier = self.tier.name().to_string();
+        let filter = self.replay_filter.clone();
+        let outputs: Vec<(usize, std::io::Result<std::process::Output>)> = std::thread::scope(|s| {
+            let hs: Vec<_> = (0..shards)
+                .map(|i| {
+                    let exe = exe.clone();
+                    let tier = tier.clone();
+                    let builder = builder.to_string();
+                    let filter = filter.clone();
+                    s.spawn(move || {
+                        let cmd = format!(
+                            "ulimit -v 12582912 2>/dev/null; exec '{}' child cases {} {} {} {} {}",
+                            exe.display(),
+                            builder,
+                            tier,
+                            i,
+                            shards,
+                            filter.map(|f| format!("'{}'", f.replace('\'', ""))).unwrap_or_default()
+                        );
+                        (i, std::process::Command::new("sh").arg("-c").arg(cmd).stdin(std::process::Stdio::null()).stderr(std::process::Stdio::null()).output())
+                    })
+                })
+                .collect();
+            hs.into_iter().map(|h| h.join().unwrap()).collect()
+        });
+        let known = load_known_findings();
+        let mut seen_keys: BTreeSet<String> = BTreeSet::new();
+        for (shard, out) in outputs {
+            let out = match out {
+                Ok(o) => o,
+                Err(e) => {
+                    self.machinery.push(format!("child shard {} could not be started: {}", shard, e));
+                    continue;
+                },
+            };
+            let text = String::from_utf8_lossy(&out.stdout).to_string();
+            let mut started: Option<String> = None;
+            for line in text.lines() {
+                if let Some(k) = line.strip_prefix("START ") {
+                    started = Some(k.to_string());
+                } else if let Some(rest) = line.strip_prefix("END ") {
+                    started = None;
+                    let v: Value = match serde_json::from_str(rest) {
+                        Ok(v) => v,
+                        Err(_) => {
+                            self.machinery.push(format!("child shard {}: unparsable result line", shard));
+                            continue;
+                        },
+                    };
+                    let key = format!("{}/{}", family, v["key"].as_str().unwrap_or(""));
+                    seen_keys.insert(key.clone());
+                    if !self.states.insert(fnv(&key)) {
+                        self.machinery.push(format!("duplicate case key {}", key));
+                    }
+                    self.extra_states += v["extra_states"].as_u64().unwrap_or(0);
+                    self.transitions += v["transitions"].as_u64().unwrap_or(0).max(1);
+                    self.executions += v["executions"].as_u64().unwrap_or(0);
+                    self.validated += v["validated"].as_u64().unwrap_or(0);
+                    *self.outcomes.entry(v["outcome"].as_str().unwrap_or("?").to_string()).or_insert(0) += 1;
+                    if let Some(c) = v["counters"].as_object() {
+                        for (k, n) in c {
+                            *self.sub_outcomes.entry(k.clone()).or_insert(0) += n.as_u64().unwrap_or(0);
+                        }
+                    }
+                    if self.samples.len() < 8 && !v["sample"].is_null() {
+                        self.samples.push(json!({"case": key, "outcome": v["outcome"], "detail": v["sample"]}));
+                    }
+                    for m in v["machinery"].as_array().cloned().unwrap_or_default() {
+                        self.machinery.push(m.as_str().unwrap_or("").to_string());
+                    }
+                    for viol in v["violations"].as_array().cloned().unwrap_or_default() {
+                        let sub = viol[0].as_str().unwrap_or("");
+                        let what = viol[1].as_str().unwrap_or("").to_string();
+                        let full = if sub.is_empty() { key.clone() } else { format!("{}#{}", key, sub) };
+                        if let Some(k) = known.iter().find(|k| k.property == self.id && k.status == "known" && glob_match(&k.key, &full)) {
+                            let e = self.known_hits.entry(k.key.clone()).or_insert((k.what.clone(), 0));
+                            e.1 += 1;
+                        } else {
+                            self.violations.push((full, what));
+                        }
+                    }
+                }
+            }
+            if let Some(k) = started {
+                // the child died while running this case: abort, stack overflow, runaway allocation, ...
+                let key = format!("{}/{}", family, k);
+                seen_keys.insert(key.clone());
+                self.states.insert(fnv(&key));
+                *self.outcomes.entry("CHILD-DIED".to_string()).or_insert(0) += 1;
+                self.violations.push((key, format!("the process died while running this case (status {:?}): abort / unbounded allocation / stack overflow", out.status)));
+            } else if !out.status.success() {
+                self.machinery.push(format!("child shard {} exited with {:?} outside any case", shard, out.status));
+            }
+        }
+        if self.replay_filter.is_none() {
+            for k in keys {
+                let full = format!("{}/{}", family, k);
+                if !seen_keys.contains(&full) {
+                    self.machinery.push(format!("case {} was never reported by a child (a later case in its shard was not reached)", full));
+                    break;
                 }
             }
         }
